@@ -45,6 +45,10 @@ def generate(rng, tier):
                   'gb.btn 0 %d 1' % rng.randrange(8), 'gb.frames 0 1', 'gb.obs 0']
         cases.append(('fr%d' % n, lines))
         n += 1
+    from props import sysgen as _sg
+    for rep in range(2 if tier == 'quick' else 12):
+        cases.append(('fr%d' % n, _sg.key_case(rng, [0x10, 0x00, 0x3c, 0x18, 0xfd], n_events=4) + ['gb.frames 0 1', 'gb.obs 0']))
+        n += 1
     k = 0
     for pre in (['gb.w 0 65344 0'], ['gb.w 0 65344 0', 'gb.frames 0 1']):
         for kk in (1, 2):
